@@ -59,6 +59,51 @@ as opposed to rows that differ only for arguments of the wrong shape -/
 def offendingEverywhere : List (String × List String) :=
   (Spec.signatures.filter differsEverywhere).map (fun s => (s.name, s.params))
 
+
+/-! ## the signatures of the code: parameter names read from the regenerated table `named` -/
+
+/-- the `core::` calls an arm of `named::evaluate_bif` can make -/
+def NBody.calls : NBody → List NCall
+  | .call c => [c]
+  | .null => []
+  | .ifParam _ _ t e => t.calls ++ e.calls
+
+def NArg.name? : NArg → Option String
+  | .var n => some n
+  | .itemsOf n => some n
+  | .single n => some n
+  | .nullLit => none
+
+/-- FEEL name of a `Bif` variant -/
+def nameOfVariant (variant : String) : Option String := (bifNames.find? (fun e => e.2 == variant)).map (·.1)
+
+/-- One signature for every `core::` call of every arm of `named::evaluate_bif`: the parameter names the call reads
+(`get_param(parameters, &NAME_…)`, resolved through the `lazy_static` table of `named.rs`), in the order in which it
+passes them, all of them required.  `substring` gives `[string, start position, length]` and
+`[string, start position]`; `after` its four forms; a function without a named form (`append`) none. -/
+def codeSignatures : List Signature :=
+  named.flatMap (fun row =>
+    match nameOfVariant row.variant with
+    | some name => row.body.calls.map (fun c =>
+        let ps := c.args.filterMap NArg.name?
+        ⟨name, ps, ps.length⟩)
+    | none => [])
+
+/-- a signature of the specification read at each admissible number of arguments -/
+def Signature.forms (sig : Signature) : List Signature :=
+  (arities sig).map (fun n => ⟨sig.name, sig.params.take n, n⟩)
+
+def inCode (s : Signature) : Bool := codeSignatures.any (fun c => c.name == s.name && c.params == s.params)
+
+/-- the forms of the specification's signatures the code has no named form for (other names, or no named form at all) -/
+def specFormsNotInCode : List (String × List String) :=
+  ((Spec.signatures.flatMap Signature.forms).filter (fun s => !inCode s)).map (fun s => (s.name, s.params))
+
+/-- the named forms of the code the specification's tables do not have -/
+def codeFormsNotInSpec : List (String × List String) :=
+  (codeSignatures.filter (fun c => !(Spec.signatures.flatMap Signature.forms).any
+    (fun s => c.name == s.name && c.params == s.params))).map (fun s => (s.name, s.params))
+
 /-- the FEEL names `Bif::from_str` accepts -/
 def names : List String := bifNames.map (·.1)
 
